@@ -260,9 +260,10 @@ def allZip {α β} (p : α → β → Bool) : List α → List β → Bool
     the scene lists every node once -/
 def carriesScene (s : Scene) (d : Doc) (buf : List UInt8) : Bool :=
   allZip (carries s d buf) s.visible (d.nodes.take s.visible.length)
-  && allZip (fun pos (n : GNode) => n.translation == some pos && n.mesh == none) s.lights (d.nodes.drop s.visible.length)
+  && allZip (fun (l : List Nat) (n : GNode) => n.translation == some (l.take 3) && n.mesh == none) s.lights (d.nodes.drop s.visible.length)
   && d.scene == List.range d.nodes.length
   && d.lights == s.lights.length
+  && d.lightData == s.lights.map (fun l => lightOut (l.drop 3))
 
 end Gltf
 end PolyVerif
